@@ -73,6 +73,36 @@ CLAIMED = {
    note=TB + "Same modelling assumptions as C11/C12.",
    technique="Coq proof (diff loop invariant, NoDup of produced entries, pigeonhole for the heuristic) + differential execution",
    design="5/C20"),
+ 'C01': dict(
+   text="Machine-checked proof (Coq) by mutual induction over the universe of derivable type shapes {plain/Option/enum, skip, recurse, recurse+Option (all four transitions), ordered, unordered array, flat map in either mode, recursive map in both modes, enum types}: for all well-typed a, b the relation R_s true s a b (apply s a (diff s a b)) holds — plain/optional/nested/enum/ordered fields equal b's, skipped fields keep a's value at top level and hold the old or the new value when nested, unordered fields are permutations, flat maps equal, recursive maps have exactly b's keys with new keys carrying b's value and retained keys patched (key-and-value) or old-or-new (key-only). All back ends are the real models (Hirschberg with translated constants, C11, C12, C13), for every hash iteration order. Tie (shared by the derive-level properties): random type shapes are emitted as Rust declarations with #[derive(Difference)], compiled against /repo on every run, and every observation (entries of diff and diff_ref, results of the four apply entry points, follower states) is compared verbatim with the extracted Coq model of the derive; the oracle evaluates the property's own relation on the implementation's output.",
+   note=TB + 'Values are modelled as a universal tree with Z atoms; maps and sets are kept canonical (sorted); derived PartialEq = structural equality; Clone = identity. Shapes are limited to the generator\'s grammar (depth <= 2).',
+   technique='Coq proof by mutual induction on the shape universe over the proved back-end theorems + differential execution of generated crates',
+   design='5/C01'),
+ 'C02': dict(
+   text="Machine-checked proof (Coq): for a follower base a' equivalent (Eq_s: equal on unskipped fields, unordered collections as multisets, key-only maps by key set) to a, apply s a' (diff s a b) is R-related and hence equivalent to b and keeps the follower's own skipped fields (apply_diff_equiv); by induction over histories of any length the follower is equivalent to the leader after every step (replication_tracks). Tie (shared by the derive-level properties): random type shapes are emitted as Rust declarations with #[derive(Difference)], compiled against /repo on every run, and every observation (entries of diff and diff_ref, results of the four apply entry points, follower states) is compared verbatim with the extracted Coq model of the derive; the oracle evaluates the property's own relation on the implementation's output.",
+   note=TB + 'Values are modelled as a universal tree with Z atoms; maps and sets are kept canonical (sorted); derived PartialEq = structural equality; Clone = identity. Shapes are limited to the generator\'s grammar (depth <= 2).',
+   technique='Coq proof (follower lemma + induction over histories) + differential execution incl. 3..12-step histories with perturbed followers',
+   design='5/C02'),
+ 'C03': dict(
+   text="Machine-checked proof (Coq): for ARBITRARY entry lists a field named by no applied entry keeps its value (hence no sequence of apply calls changes a skipped field), no entry is produced for a skipped field, a diff has at most one entry per field, and applying any sub-multiset of a diff's entries in any order leaves each field either fully patched or exactly as it was. Tie (shared by the derive-level properties): random type shapes are emitted as Rust declarations with #[derive(Difference)], compiled against /repo on every run, and every observation (entries of diff and diff_ref, results of the four apply entry points, follower states) is compared verbatim with the extracted Coq model of the derive; the oracle evaluates the property's own relation on the implementation's output.",
+   note=TB + 'Values are modelled as a universal tree with Z atoms; maps and sets are kept canonical (sorted); derived PartialEq = structural equality; Clone = identity. Shapes are limited to the generator\'s grammar (depth <= 2).',
+   technique='Coq proof (frame lemma per template, one-entry-per-field, permutation argument) + differential execution of random entry subsets in random order',
+   design='5/C03'),
+ 'C04': dict(
+   text="Machine-checked proof (Coq): entries_match — walking the fields in declaration order, diff contains no entry for a field that does not differ in the sense of its strategy and exactly one entry naming that field when it does; enum: empty iff equal else one whole-value replacement; diff a a = []. Back ends instantiated with their proved 'absent iff equal' theorems. Tie (shared by the derive-level properties): random type shapes are emitted as Rust declarations with #[derive(Difference)], compiled against /repo on every run, and every observation (entries of diff and diff_ref, results of the four apply entry points, follower states) is compared verbatim with the extracted Coq model of the derive; the oracle evaluates the property's own relation on the implementation's output.",
+   note=TB + 'Values are modelled as a universal tree with Z atoms; maps and sets are kept canonical (sorted); derived PartialEq = structural equality; Clone = identity. Shapes are limited to the generator\'s grammar (depth <= 2).',
+   technique='Coq proof (per-strategy exactness over proved back-end iff-specs) + differential execution',
+   design='5/C04'),
+ 'C06': dict(
+   text="The four entry points are transcribed from the default methods of src/lib.rs; in a pure functional model the agreement theorem is short and purity holds by construction, so for this property the WEIGHT IS ON THE CORRESPONDENCE: the generated harness calls apply, apply_ref, apply_mut and repeated apply_single on clones of real values for every case, compares the four results with each other and with the model, and compares the receivers and diff arguments with clones afterwards. Tie (shared by the derive-level properties): random type shapes are emitted as Rust declarations with #[derive(Difference)], compiled against /repo on every run, and every observation (entries of diff and diff_ref, results of the four apply entry points, follower states) is compared verbatim with the extracted Coq model of the derive; the oracle evaluates the property's own relation on the implementation's output.",
+   note=TB + 'Values are modelled as a universal tree with Z atoms; maps and sets are kept canonical (sorted); derived PartialEq = structural equality; Clone = identity. Shapes are limited to the generator\'s grammar (depth <= 2).',
+   technique='Coq model of the four default methods (short proof) + execution-level agreement and purity checks on generated crates',
+   design='5/C06'),
+ 'C13': dict(
+   text="Machine-checked proof (Coq) at the collection level for any key type, any nested diff/apply/==, any hash order, both modes and ANY base map (mr_follow: diff absent iff maps same; otherwise per key: new key gets current's value, removed key absent, retained key patched in place by the nested diff / left alone in key-only mode; mr_diff_modify_spec; mr_apply_closed_form) and at the derive level as the FMapRec case of the C01/C02 induction. Tie (shared by the derive-level properties): random type shapes are emitted as Rust declarations with #[derive(Difference)], compiled against /repo on every run, and every observation (entries of diff and diff_ref, results of the four apply entry points, follower states) is compared verbatim with the extracted Coq model of the derive; the oracle evaluates the property's own relation on the implementation's output. The C13 workload consists of shapes that contain a recursive map.",
+   note=TB + 'Values are modelled as a universal tree with Z atoms; maps and sets are kept canonical (sorted); derived PartialEq = structural equality; Clone = identity. Shapes are limited to the generator\'s grammar (depth <= 2).',
+   technique='Coq proof (keyed fold lemma, loop specification, closed form of apply) + differential execution on recursive-map shapes',
+   design='5/C13'),
 }
 NA_REASON = "check not wired into the manifest yet at this commit (build in progress; see DESIGN.md section 5 for the planned theorem and tie)"
 
